@@ -12,6 +12,7 @@ Indices are taken modulo the current pool size; ops needing a non-empty pool are
 """
 from __future__ import annotations
 
+import copy
 import os
 import traceback
 
@@ -163,6 +164,21 @@ class World:
                 for _ in range(op[1]):
                     self.random.randint(0, 100)
                 return Event(k, op, [])
+            if k == "direct":
+                # another user of the same decider object: a tree representation sharing it creates a
+                # program (the draws come from the decider's own source, like a burn)
+                from geneticengine.representations.tree.treebased import TreeBasedRepresentation
+
+                try:
+                    TreeBasedRepresentation(self.grammar, self.decider).create_genotype(self.random)
+                except Exception:  # noqa: BLE001 - a disturbance only; its own outcome is not judged here
+                    pass
+                return Event(k, op, [])
+            if k == "sibling":
+                # another grammar extracted in the same process from a subset of the same classes
+                # (one concrete production left out and/or another starting symbol)
+                self.mat.extract_sibling(op[1], op[2], op[3], len(op) > 4 and op[4])
+                return Event(k, op, [])
             if not self.pool:
                 self.skipped += 1
                 return None
@@ -263,7 +279,7 @@ class World:
 
 
 # ---- strategies -------------------------------------------------------------------------
-def ops_strategy(max_ops=10, with_search=False, with_burn=False, with_map=True, with_init=False):
+def ops_strategy(max_ops=10, with_search=False, with_burn=False, with_map=True, with_init=False, with_disturb=True):
     idx = st.integers(0, 30)
     alts = [
         st.just(["create"]),
@@ -277,6 +293,9 @@ def ops_strategy(max_ops=10, with_search=False, with_burn=False, with_map=True, 
         alts.append(st.builds(lambda k, n: ["init", k, n], st.sampled_from(["standard", "generic", "full", "grow", "pigrow", "ramped", "halfandhalf"]), st.integers(1, 3)))
     if with_burn:
         alts.append(st.builds(lambda n: ["burn", n], st.integers(1, 5)))
+    if with_disturb:
+        alts.append(st.just(["direct"]))
+        alts.append(st.builds(lambda k, d, s, f: ["sibling", k, d, s, f], st.integers(0, 12), st.booleans(), st.one_of(st.none(), st.integers(0, 12)), st.booleans()))
     if with_search:
         alts.append(
             st.builds(
@@ -309,6 +328,6 @@ def world_cases(
         "decider": draw(st.sampled_from(list(deciders))),
         "depth_extra": draw(st.sampled_from(list(depth_extras))),
         "seed": draw(st.integers(0, 2**31)),
-        "gene_length": draw(st.sampled_from([1, 2, 5, 16, 64, 256])),
+        "gene_length": draw(st.one_of(st.sampled_from([1, 2, 5, 16, 64, 256]), st.sampled_from([1, 2, 5, 16, 64, 256]), st.integers(1, 6000))),
         "ops": draw(ops_strategy(max_ops, with_search, with_burn, with_map, with_init)),
     }
